@@ -509,13 +509,13 @@ int64_t cmi_pool_acquire_inner(struct cmb_resourcepool *rpp,
         /* Wait at the front door until some more becomes available  */
         cmb_assert_debug(rem_claim > 0u);
         const int64_t sig = cmb_resourceguard_wait(&(rpp->guard), is_available, NULL);
-        if (sig == CMB_PROCESS_PREEMPTED) {
-            /* Got thrown out instead, unwind. */
-            cmb_logger_info(stdout, "Preempted, returning empty-handed");
-
-            return sig;
-        }
-        else if (sig != CMB_PROCESS_SUCCESS) {
+        if (sig != CMB_PROCESS_SUCCESS) {
+            /*
+             * That includes CMB_PROCESS_PREEMPTED: If it was this pool we were
+             * thrown out of, our record is gone and there is nothing to put
+             * back. If we were preempted from something else we hold, what we
+             * collected here so far goes back like for any other interruption.
+             */
             cmb_logger_info(stdout,
                             "Interrupted by signal %" PRId64 ", returning unchanged",
                             sig);
